@@ -203,6 +203,7 @@ const (
 	skDecimal // decimal rendering of integer X
 	skSlice   // substring of a constant with unknown bounds etc.
 	skTop
+	skSrc // the content of an external source: S names the kind ("download"), X is its address
 )
 
 type StrV struct {
@@ -245,6 +246,8 @@ func (s StrV) String() string {
 		return fmt.Sprintf("%s[%s]", s.List.Name(), s.Idx.String())
 	case skDecimal:
 		return "decimal(" + s.X.String() + ")"
+	case skSrc:
+		return s.S + "(" + s.X.String() + ")"
 	}
 	return "str:⊤(" + s.S + ")"
 }
@@ -414,10 +417,11 @@ const (
 
 // Obj is an abstract heap/stack object (one per allocation site and calling context).
 type Obj struct {
-	ID   int
-	Kind ObjKind
-	Site ssa.Instruction
-	Note string
+	Struct bool // (okVec) the elements are the fields of a struct
+	ID     int
+	Kind   ObjKind
+	Site   ssa.Instruction
+	Note   string
 }
 
 // PtrV points to an object, to a global, or to an element of something.
@@ -425,6 +429,23 @@ type PtrV struct {
 	O    *Obj
 	G    *ssa.Global
 	Elem *ElemRef
+	Ext  AV // address of a field of an external resource whose value is Ext (read-only)
+}
+
+// ResV is a handle on an external resource the word-list generator works with.
+type ResV struct {
+	Kind  string // "http.Response", "http.Body", "os.File", "bufio.Writer"
+	A     AV     // URL (response, body), path (file), underlying writer (bufio)
+	Flags AV     // open flags (file); nil for os.Create
+	O     *Obj   // bufio: cell holding "has unflushed data"
+	Site  ssa.Instruction
+}
+
+func (r ResV) String() string {
+	if r.Flags != nil {
+		return fmt.Sprintf("%s(%v, %v)", r.Kind, r.A, r.Flags)
+	}
+	return fmt.Sprintf("%s(%v)", r.Kind, r.A)
 }
 
 type ElemRef struct {
@@ -440,6 +461,8 @@ func (p PtrV) String() string {
 		return "&" + p.G.Name()
 	case p.Elem != nil:
 		return fmt.Sprintf("&%v[%v]", p.Elem.Base, p.Elem.Idx)
+	case p.Ext != nil:
+		return fmt.Sprintf("&field(%v)", p.Ext)
 	}
 	return "&?"
 }
